@@ -59,7 +59,6 @@ template <class T> static void run_T(Choice &c, Ctx &cx)
     apply_opts(o, e.so);
     if (ilu) { e.so.IterRefine = NOREFINE; e.so.RowPerm = NOROWPERM; e.so.ILU_DropRule = NODROP; }
     e.so.ColPerm = o.colperm == MY_PERMC ? NATURAL : o.colperm;
-    if (ilu && cx.is_known("F-ILU") && ilu_probe_breakdown(e)) { cx.exclude("F-ILU"); cx.label("base-call-not-clean"); vf_purge(); return; }
     e.bind();
     if (e.call() || !(e.info == 0)) { cx.label("base-call-not-clean"); if (!e.aborted) e.teardown(); vf_purge(); return; }
     long live_before = vf_live_blocks();
